@@ -6,7 +6,7 @@ V = os.path.dirname(os.path.dirname(os.path.abspath(__file__)))
 # property id -> (technique, level text, level note, design ref)
 CLAIMED = {
  'C03': ('CFG dominance + dispatch-table extraction over the clang AST (resume-state consistency, token carry)',
-         'Static rule check: every suspend point of the incremental JSON number/string automata (all instantiations) restores the label it left and carries the partial token; decided from the resolved AST, no execution. Necessary structural clauses of chunking independence, not the behaviour. Also: short-read agreement of every source read (R03.8) and the cursor-bounds typestate of the JSON scanners (R05.6: no dereference past the chunk end).',
+         'Static rule check: every suspend point of the incremental JSON number/string automata (all instantiations) restores the label it left and carries the partial token; decided from the resolved AST, no execution. Necessary structural clauses of chunking independence, not the behaviour. Also: short-read agreement of every source read (R03.8) and the cursor-bounds typestate of the JSON scanners (R05.6: no dereference past the chunk end). CSV parser included; the mark-level test of a close sees the level the container was opened at.',
          'Decides clauses R03.*; does not decide event-sequence equality for all inputs. Trusted: clang 14 Sema, the fact plugin, the Python analysers.',
          'DESIGN.md §4 C03'),
  'C10': ('CFG dominance + interprocedural call-site search for nesting-limit guards; exactness of the comparison shape',
@@ -14,7 +14,7 @@ CLAIMED = {
          'Decides clauses R10.*; does not decide stack bytes per level or memory proportionality as numbers. Known findings F9 (CBOR typed arrays) and F16 (TOON) are reported as KNOWN-FINDING.',
          'DESIGN.md §4 C10'),
  'C07': ('partial evaluation (constant propagation of the initial byte through the dispatch code) and comparison of the per-byte guarded-effect table with the specification table',
-         'Static table agreement: the 256-row dispatch tables of the binary decoders (bytes read, integer type, byte order, UTF-8 validation, event, tag, error) are extracted from the resolved AST by partial evaluation and compared row by row with specification tables written from the standards. Exhaustive over initial bytes per instantiation; no input is run.',
+         'Static table agreement: the 256-row dispatch tables of the binary decoders (bytes read, integer type, byte order, UTF-8 validation, event, tag, error) are extracted from the resolved AST by partial evaluation and compared row by row with specification tables written from the standards. Exhaustive over initial bytes per instantiation; no input is run. Also shared: depth counter balance of the closers (R10.7).',
          'Decides the per-byte dispatch rows; does not decide decoded values beyond width/signedness/order nor behaviour over all inputs. Trusted: clang 14, the plugin, the evaluator, the spec tables in /verif/spec.',
          'DESIGN.md §4 C07'),
  'C02': ('partial evaluation of the hand-written automaton into (state x character) cell tables, number/string DFAs and the end-of-input table; comparison with the RFC 8259 grammar table',
@@ -26,7 +26,7 @@ CLAIMED = {
          'Decides absence of shared writable state; does not decide interleavings or equality of per-thread results. Table exemptions (exception what_ caches; JSONPath null_value static) are listed with reasons and a checked supporting fact.',
          'DESIGN.md §4 C20'),
  'C01': ('partial evaluation of the encoder escape function per character and comparison with the parser un-escape table; structural \\u/surrogate constants; data()/size() pairing lint; parser resume-state rule',
-         'Static table agreement and pairing rules: the encoder escape table (256 characters x escape_solidus, char and wchar_t) is the inverse of the RFC 8259 un-escape table the parser is verified against, control characters always leave through a four-digit \\u path with the standard surrogate split, no (pointer,length) pair mixes two objects, and the parser resumes string tokens where it left them. Necessary structural clauses of lossless round-trip. Also: the pretty and the compact encoder write the same value text for every value event (sibling agreement R01.3).',
+         'Static table agreement and pairing rules: the encoder escape table (256 characters x escape_solidus, char and wchar_t) is the inverse of the RFC 8259 un-escape table the parser is verified against, control characters always leave through a four-digit \\u path with the standard surrogate split, no (pointer,length) pair mixes two objects, and the parser resumes string tokens where it left them. Necessary structural clauses of lossless round-trip. Also: the pretty and the compact encoder write the same value text for every value event (sibling agreement R01.3). Number writers forward their value unchanged to the fallback overload (R01.7); the pretty printer\'s column advances by what was appended (R01.8).',
          'Decides the escape/un-escape agreement and the listed pairing rules; does not decide byte-for-byte canonicity under all options, Grisu3/from_chars or the pretty-printer column arithmetic.',
          'DESIGN.md §4 C01'),
  'C05': ('per-site safety obligations: bounded snprintf lengths (static bound or dominating upper-bound test), regex construction inside converting try/catch, clamped slice steps, value-set analysis of every __builtin_unreachable, margin typestate (must-dataflow) for cursor dereferences in the character scanners and for the state stacks of the expression compilers',
@@ -38,7 +38,7 @@ CLAIMED = {
          'Decides exhaustiveness, non-truncation and marker/width agreement of the ladders; does not decide equality of decoded and original documents, bigint or decimal128 conversions.',
          'DESIGN.md §4 C06'),
  'C09': ('tagged-union kind-set dataflow over the CFG of every basic_json member (cast typestate, unreachable exhaustiveness), compare() pair-matrix symmetry by partial evaluation, sort/unique discipline of sorted objects',
-         'Static typestate: at every cast<S_storage>() the object can only hold the kind S is constructed with (predicate truth tables computed from their bodies), every __builtin_unreachable default of a kind switch is unreachable, compare() treats every ordered kind pair symmetrically (14x14 cells x number-tag assignments), and sorted-object de-duplication is preceded by a stable sort. All member functions of all instantiations are analysed.',
+         'Static typestate: at every cast<S_storage>() the object can only hold the kind S is constructed with (predicate truth tables computed from their bodies), every __builtin_unreachable default of a kind switch is unreachable, compare() treats every ordered kind pair symmetrically (14x14 cells x number-tag assignments), and sorted-object de-duplication is preceded by a stable sort. All member functions of all instantiations are analysed. Also: Bloom-filter soundness of the order-preserving object\'s bulk insert paths (R09.6).',
          'Decides the listed structural clauses; does not decide agreement with a reference model over operation sequences or as<T>() exactness.',
          'DESIGN.md §4 C09'),
  'C19': ('exception-safety typestate over the CFG (destroyed -> re-initialised), dominance of the patch unwinder',
